@@ -395,7 +395,9 @@ pub fn replay_file(engine: &dyn Engine, path: &Path) -> (bool, RunCtx, Value) {
     let j: Value = serde_json::from_str(&s).unwrap_or_else(|e| harness_error(&format!("replay file does not parse: {e}")));
     let prop = j["property"].as_str().unwrap_or("").to_string();
     let choices: Vec<u64> = j["choices"].as_array().map(|a| a.iter().map(|x| x.as_u64().unwrap_or(0)).collect()).unwrap_or_default();
-    let ctx = execute(engine, &prop, Choices::replay(choices), &[]);
+    // every open finding other than the file's own pattern stays open, exactly as in the search that produced it
+    let open: Vec<String> = load_open_findings(&prop).iter().map(|f| f.pattern.clone()).filter(|p| Some(p.as_str()) != j["pattern"].as_str()).collect();
+    let ctx = execute(engine, &prop, Choices::replay(choices), &open);
     let ok = match &ctx.violation {
         Some(v) => Some(v.clause.as_str()) == j["clause"].as_str() && v.pattern.as_deref() == j["pattern"].as_str(),
         None => false,
